@@ -15,7 +15,7 @@ class Untranslatable(Exception):
     pass
 
 
-FIELDS = {'read': 'FRead', 'modified': 'FModified', 'bound': 'FBound'}
+FIELDS = {'read': 'FRead', 'modified': 'FModified', 'bound': 'FBound', 'hidden': 'FHidden'}
 
 
 def _union_terms(e):
